@@ -71,6 +71,27 @@ def run_case(runner, space, case):
         if not r.status.startswith("exit:") or r.status in ("exit:86", "exit:87"):
             viol.append(("c07-cli-abnormal", "%s %r" % (r.status, r.stderr[:200])))
         return {"transitions": n, "outcome": hash((r.status, len(good), len(badset))), "nontrivial": True, "violations": viol}
+    if space == "c07" and "fsize" in case:
+        # writes to the output file start failing after 'fsize' bytes (file size limit of the process): a member that does not fit
+        # must not be reported as extracted, and the exit status must say so
+        big = bytes((i * 7 + (i >> 8) * 13) & 0xFF for i in range(case["size"]))
+        small = b"small member\n"
+        arc = entry("f", b"", b"big.bin", big, level=2) + entry("f", b"", b"small.txt", small, level=1)
+        r = runner.run(arc, [case["cmd"], "../archive.lzh"], stdin=b"", fsize=case["fsize"], want_trees=True)
+        good, badset = parse_names(r.stdout, None, None)
+        fits = case["size"] <= case["fsize"]
+        for nm, plain in ((b"big.bin", big), (b"small.txt", small)):
+            node = r.tree.get(nm)
+            intact = node is not None and node[0] == "f" and node[3] == plain
+            if nm in good and not intact:
+                viol.append(("c07-cli-melted-without-file", "%s with a file size limit of %d: %r is reported Melted but the file holds %s of %d bytes" % (case["cmd"], case["fsize"], nm, "nothing" if node is None or node[3] is None else len(node[3]), len(plain))))
+        if not fits and r.status == "exit:0":
+            viol.append(("c07-cli-exit-status", "%s with a file size limit of %d on a member of %d bytes: exit status 0" % (case["cmd"], case["fsize"], case["size"])))
+        if fits and (r.status != "exit:0" or b"big.bin" not in good and "q2" not in case["cmd"]):
+            viol.append(("c07-cli-good-not-reported", "%s: member of %d bytes under a limit of %d: %s, stdout %r" % (case["cmd"], case["size"], case["fsize"], r.status, r.stdout[-120:])))
+        if not r.status.startswith("exit:") or r.status in ("exit:86", "exit:87"):
+            viol.append(("c07-cli-abnormal", "%s %r" % (r.status, r.stderr[:200])))
+        return {"transitions": 1, "outcome": hash((r.status, tuple(sorted(good)))), "nontrivial": True, "violations": viol}
     if space == "c07":
         mem = three_members()
         names = [b"alpha.txt", b"dir/beta.bin", b"gamma"]
@@ -161,6 +182,10 @@ def cases_c07(thorough):
                     yield {"mask": mask, "how": how, "cmd": cmd, "filters": filters}
 
 
+    for size, limits in ((200000, (4096, 32768, 100000, 199999, 200000, 262144)), (60000, (16384, 59999)), (9000, (4096, 8192)), (300000, (262144, 262145, 299999))):
+        for lim in limits:
+            for cmd in ("xf", "xq1", "ef"):
+                yield {"size": size, "fsize": lim, "cmd": cmd}
     for blocked in range(1, 8):
         for cmd in ("xf", "xq1", "ef", "xfq0"):       # forms that do not prompt about the existing path
             yield {"mask": 0, "how": "crc", "cmd": cmd, "blocked": blocked}
